@@ -618,8 +618,13 @@ func (s *vC12State) anyFed() *FederationClient {
 	return vC12LastFed.Load()
 }
 
+// vC12Stalled: some goroutine of the server under test was found blocked or spinning.  The observation is in
+// the case's output line; the process cannot be expected to shut down in an orderly way afterwards.
+var vC12Stalled atomic.Bool
+
 // diagnose tells a self-deadlock of the federation client from a slow run.
 func (s *vC12State) diagnose(what string) string {
+	vC12Stalled.Store(true)
 	f := s.anyFed()
 	if f == nil {
 		return "stuck:" + what
